@@ -1,6 +1,7 @@
 import Lean.Data.Json
 import Verif.Model.HttpDecide
 import Verif.Model.HttpHeaders
+import Verif.Model.SseStream
 import Verif.Gen.HttpParams
 open Lean
 -- DRIVER: http
@@ -214,9 +215,19 @@ def handleParams (j : Json) : Except String Json := do
     ("retry_delay", Json.bool (Verif.Gen.HttpParams.retryDelayAccept (← j.getObjValAs? Int "retry_delay"))),
     ("max_concurrent_requests", Json.bool (Verif.Gen.HttpParams.maxConcurrentRequestsAccept (← j.getObjValAs? Int "mcr")))]
 
+/-- `{"chunks": [str..]}` → what the streaming branch hands to the read stream -/
+def handleStream (j : Json) : Except String Json := do
+  let chunks ← j.getObjValAs? (Array String) "chunks"
+  let evs := Verif.Model.SseStream.parseStream (chunks.toList.map String.toList)
+  let msgs := evs.flatMap (sseEventMsgs leanDec)
+  return Json.mkObj [
+    ("events", Json.arr (evs.map (fun e => Json.arr #[Json.str (String.ofList e.1), Json.str (String.ofList e.2)])).toArray),
+    ("outs", Json.arr (msgs.map (fun m => outToJson (.pass m))).toArray)]
+
 def handle (j : Json) : Except String Json := do
   match optStr j "op" with
   | some "render" => handleRender j
+  | some "stream" => handleStream j
   | some "headers" => handleHeaders j
   | some "params" => handleParams j
   | _ => handleRun j
